@@ -19,6 +19,9 @@ use std::sync::Mutex;
 pub struct Plan {
     pub answers: Vec<(usize, u8)>, // (call index, 1 = fail before, 2 = fail after, 3 = short)
     pub fail_from: Option<usize>,
+    /// which writes `fail_from` applies to: 0 every call, 1 record data, 2 retirement
+    /// markers, 3 the allocation journal (fsyncs keep working for 1..3)
+    pub from_kind: u8,
 }
 
 fn answer(code: u8) -> IoAnswer {
@@ -66,6 +69,17 @@ pub fn workloads(thorough: bool) -> Vec<(String, Cfg, Vec<Op>)> {
             disk,
             vec![ins(0, 4), Op::Flush, ins(1, 0), Op::Flush, Op::Delete { k: 0, ts: 0 }, Op::Flush, ins(2, 0), ins(0, 2), Op::Flush, Op::Flush, ins(3, 1), Op::Flush],
         ),
+        // two workers: while the record writes of key a's shard keep failing, the other
+        // worker's retirement pass runs over the shared queue
+        (
+            "two-workers-chain".to_string(),
+            {
+                let mut two = disk;
+                two.workers = 2;
+                two
+            },
+            vec![ins(0, 0), Op::Flush, ins(0, 1), ins(0, 0), Op::Tick, ins(1, 0), Op::Tick, Op::Flush],
+        ),
         ("batch-of-three".to_string(), disk, vec![ins(0, 0), ins(1, 1), Op::Flush, ins(0, 1), ins(1, 0), Op::Incr { k: 1, delta: 0, ts: FUT, ttl: 0 }, Op::Flush]),
     ];
     if thorough {
@@ -90,12 +104,29 @@ pub struct FaultRun {
 /// Execute `ops` under `plan`, then heal the device, and apply every oracle.
 pub fn run(cfg: Cfg, t: &Tables, ops: &[Op], plan: &Plan, seen: &Mutex<HashSet<u128>>) -> FaultRun {
     let mut fr = FaultRun { calls: Vec::new(), problems: Vec::new(), machinery: None, images: 0, recoveries: 0, outs: Vec::new(), indeterminate: false };
-    let (mut sut, base) = match Sut::create_logged(cfg, "fault", true) {
-        Ok(x) => x,
-        Err(e) => {
-            fr.machinery = Some(e);
-            return fr;
+    // Shard assignment is randomised per store: with two workers rebuild until key `a`
+    // lives on worker 1's shard and `b` on worker 0's (worker 0 also owns the retirement
+    // queue's periodic wake-up), so that the call sequence is reproducible.
+    let mut made = None;
+    for _ in 0..200 {
+        match Sut::create_logged(cfg, "fault", true) {
+            Ok((mut sut, base)) => {
+                let ok = cfg.workers < 2 || (sut.store().verif_shard_of(&t.keys[0]) == Some(1) && sut.store().verif_shard_of(&t.keys[1]) == Some(0));
+                if ok {
+                    made = Some((sut, base));
+                    break;
+                }
+                sut.close();
+            }
+            Err(e) => {
+                fr.machinery = Some(e);
+                return fr;
+            }
         }
+    }
+    let Some((mut sut, base)) = made else {
+        fr.machinery = Some("no store with the wanted shard assignment in 200 attempts".into());
+        return fr;
     };
     {
         let mut f = sut.sess.fault.lock();
@@ -107,6 +138,7 @@ pub fn run(cfg: Cfg, t: &Tables, ops: &[Op], plan: &Plan, seen: &Mutex<HashSet<u
             .flat_map(|(i, a)| if *a == 4 { vec![(*i, IoAnswer::FailBefore), (*i + 1, IoAnswer::FailBefore), (*i + 2, IoAnswer::FailBefore)] } else { vec![(*i, answer(*a))] })
             .collect();
         f.fail_from = plan.fail_from;
+        f.fail_from_kind = plan.from_kind;
         f.calls.clear();
     }
     let mut model = Model::new(cfg, T0);
@@ -223,7 +255,7 @@ pub fn run(cfg: Cfg, t: &Tables, ops: &[Op], plan: &Plan, seen: &Mutex<HashSet<u
 
 fn plan_to_string(p: &Plan) -> String {
     let a: Vec<String> = p.answers.iter().map(|(i, c)| format!("{i}:{c}")).collect();
-    format!("{}|{}", a.join(","), p.fail_from.map_or("-".to_string(), |f| f.to_string()))
+    format!("{}|{}:{}", a.join(","), p.fail_from.map_or("-".to_string(), |f| f.to_string()), p.from_kind)
 }
 
 fn plan_from_string(s: &str) -> Plan {
@@ -233,7 +265,8 @@ fn plan_from_string(s: &str) -> Plan {
         .filter(|x| !x.is_empty())
         .filter_map(|x| x.split_once(':').map(|(i, c)| (i.parse().unwrap_or(0), c.parse().unwrap_or(1))))
         .collect();
-    Plan { answers, fail_from: f.parse().ok() }
+    let (from, kind) = f.split_once(':').unwrap_or((f, "0"));
+    Plan { answers, fail_from: from.parse().ok(), from_kind: kind.parse().unwrap_or(0) }
 }
 
 struct PlanResult {
@@ -327,7 +360,7 @@ fn exec_plans(thorough: bool, wi: usize, plans: Vec<Plan>, dl: &Deadline, stop: 
         }
         if !out.status.success() {
             // the child died: the plan after the last reported one is the culprit
-            let next = chunk.get(local.len()).cloned().unwrap_or(Plan { answers: vec![], fail_from: None });
+            let next = chunk.get(local.len()).cloned().unwrap_or(Plan { answers: vec![], fail_from: None, from_kind: 0 });
             let by_signal = {
                 use std::os::unix::process::ExitStatusExt;
                 out.status.signal().is_some()
@@ -363,7 +396,7 @@ pub fn check(tier: &str, budget_s: f64, report: &mut Report) {
         let long = name.starts_with("hole-refill");
         let max_dev: usize = if thorough { 3 } else { 2 } - usize::from(long);
         // 0 deviations: learn the call sequence
-        let base_run = run(cfg, &t, &ops, &Plan { answers: vec![], fail_from: None }, &seen);
+        let base_run = run(cfg, &t, &ops, &Plan { answers: vec![], fail_from: None, from_kind: 0 }, &seen);
         if let Some(m) = base_run.machinery {
             report.machinery(format!("[{name}] {m}"));
             continue;
@@ -376,9 +409,15 @@ pub fn check(tier: &str, budget_s: f64, report: &mut Report) {
         for i in 0..n {
             let codes: &[u8] = if base_run.calls[i] == CallKind::Write { &[1, 2, 3, 4] } else { &[1, 2] };
             for &c in codes {
-                level.push(Plan { answers: vec![(i, c)], fail_from: None });
+                level.push(Plan { answers: vec![(i, c)], fail_from: None, from_kind: 0 });
             }
-            level.push(Plan { answers: vec![], fail_from: Some(i) });
+            level.push(Plan { answers: vec![], fail_from: Some(i), from_kind: 0 });
+            if base_run.calls[i] == CallKind::Write {
+                // one class of writes keeps failing from here on, the rest of the device works
+                for kind in 1..=3u8 {
+                    level.push(Plan { answers: vec![], fail_from: Some(i), from_kind: kind });
+                }
+            }
         }
         let singles = level.len();
         let stop = AtomicBool::new(false);
@@ -415,7 +454,7 @@ pub fn check(tier: &str, budget_s: f64, report: &mut Report) {
                         for &c in codes {
                             let mut a = r.plan.answers.clone();
                             a.push((j, c));
-                            next.push(Plan { answers: a, fail_from: None });
+                            next.push(Plan { answers: a, fail_from: None, from_kind: 0 });
                         }
                     }
                 }
@@ -443,7 +482,7 @@ pub fn check(tier: &str, budget_s: f64, report: &mut Report) {
                 .collect();
             report.violation(
                 format!("fault|{name}|{plan:?}|{}", msg.chars().take(120).collect::<String>()),
-                format!("workload {name}: {:?}\nfault plan: {:?} fail_from={:?}\n{msg}", ops.iter().map(|o| t.describe(o)).collect::<Vec<_>>(), kinds, plan.fail_from),
+                format!("workload {name}: {:?}\nfault plan: {:?} fail_from={:?} ({})\n{msg}", ops.iter().map(|o| t.describe(o)).collect::<Vec<_>>(), kinds, plan.fail_from, ["every call", "record writes only", "retirement-marker writes only", "journal writes only"][plan.from_kind.min(3) as usize]),
                 json!({"engine":"fault","workload":name,"plan":format!("{plan:?}")}),
             );
         }
